@@ -266,7 +266,7 @@ func (r *recordIter) setIntColumnMeta(timeColVals *record.ColVal, idx int, rec *
 	var minV, maxV, minVTime, maxVTime, sumV, countV int64
 	var colIndex, lastIndex, firstIndex, minIndex, maxIndex int
 	nilCount := 0
-	var lastVTime int64 // time of the last non-null value (the last row may carry only other fields)
+	var lastVTime, firstVTime int64 // times of the latest / earliest non-null value, whatever the order of the record
 	colIndex = -1
 	lastIndex, firstIndex, minIndex, maxIndex = -1, -1, -1, -1
 	firstInit := false
@@ -285,9 +285,10 @@ func (r *recordIter) setIntColumnMeta(timeColVals *record.ColVal, idx int, rec *
 		}
 		countV += 1
 		colIndex += 1
-		if colIndex == 0 {
-			rec.ColMeta[idx].SetFirst(cols[index-nilCount], timeCol)
+		if colIndex == 0 || timeCol < firstVTime {
 			firstIndex = index
+			firstVTime = timeCol
+			rec.ColMeta[idx].SetFirst(cols[index-nilCount], timeCol)
 		}
 		if cols[index-nilCount] < minV || (cols[index-nilCount] == minV && minVTime > timeCol) {
 			minV = cols[index-nilCount]
@@ -302,8 +303,10 @@ func (r *recordIter) setIntColumnMeta(timeColVals *record.ColVal, idx int, rec *
 		}
 
 		sumV += cols[index-nilCount]
-		lastIndex = colIndex
-		lastVTime = timeCol
+		if colIndex == 0 || timeCol >= lastVTime {
+			lastIndex = colIndex
+			lastVTime = timeCol
+		}
 	}
 
 	rec.ColMeta[idx].SetLast(cols[lastIndex], lastVTime)
@@ -331,7 +334,7 @@ func (r *recordIter) setBoolColumnMeta(timeColVals *record.ColVal, idx int, rec 
 	var minV, maxV bool
 	var colIndex, lastIndex, firstIndex, minIndex, maxIndex int
 	nilCount := 0
-	var lastVTime int64 // time of the last non-null value (the last row may carry only other fields)
+	var lastVTime, firstVTime int64 // times of the latest / earliest non-null value, whatever the order of the record
 	lastIndex, firstIndex, minIndex, maxIndex = -1, -1, -1, -1
 
 	countV = 0
@@ -352,7 +355,9 @@ func (r *recordIter) setBoolColumnMeta(timeColVals *record.ColVal, idx int, rec 
 		}
 		countV += 1
 		colIndex += 1
-		if colIndex == 0 {
+		if colIndex == 0 || timeCol < firstVTime {
+			firstIndex = index
+			firstVTime = timeCol
 			rec.ColMeta[idx].SetFirst(cols[index-nilCount], timeCol)
 		}
 		if minV && !cols[index-nilCount] {
@@ -366,8 +371,10 @@ func (r *recordIter) setBoolColumnMeta(timeColVals *record.ColVal, idx int, rec 
 			maxVTime = timeCol
 			maxIndex = index
 		}
-		lastIndex = colIndex
-		lastVTime = timeCol
+		if colIndex == 0 || timeCol >= lastVTime {
+			lastIndex = colIndex
+			lastVTime = timeCol
+		}
 	}
 
 	rec.ColMeta[idx].SetLast(cols[lastIndex], lastVTime)
@@ -394,7 +401,7 @@ func (r *recordIter) setFloatColumnMeta(timeColVals *record.ColVal, idx int, rec
 	var minV, maxV, sumV float64
 	var colIndex, lastIndex, firstIndex, minIndex, maxIndex int
 	nilCount := 0
-	var lastVTime int64 // time of the last non-null value (the last row may carry only other fields)
+	var lastVTime, firstVTime int64 // times of the latest / earliest non-null value, whatever the order of the record
 	colIndex = -1
 	lastIndex, firstIndex, minIndex, maxIndex = -1, -1, -1, -1
 	sumV = 0
@@ -415,7 +422,9 @@ func (r *recordIter) setFloatColumnMeta(timeColVals *record.ColVal, idx int, rec
 		}
 		countV += 1
 		colIndex += 1
-		if colIndex == 0 {
+		if colIndex == 0 || timeCol < firstVTime {
+			firstIndex = index
+			firstVTime = timeCol
 			rec.ColMeta[idx].SetFirst(cols[index-nilCount], timeCol)
 		}
 		if cols[index-nilCount] < minV || (cols[index-nilCount] == minV && minVTime > timeCol) {
@@ -431,8 +440,10 @@ func (r *recordIter) setFloatColumnMeta(timeColVals *record.ColVal, idx int, rec
 		}
 
 		sumV += cols[index-nilCount]
-		lastIndex = colIndex
-		lastVTime = timeCol
+		if colIndex == 0 || timeCol >= lastVTime {
+			lastIndex = colIndex
+			lastVTime = timeCol
+		}
 	}
 
 	rec.ColMeta[idx].SetLast(cols[lastIndex], lastVTime)
@@ -458,7 +469,7 @@ func (r *recordIter) setStringColumnMeta(timeColVals *record.ColVal, idx int, re
 
 	var colIndex, lastIndex, firstIndex int
 	nilCount := 0
-	var lastVTime int64 // time of the last non-null value (the last row may carry only other fields)
+	var lastVTime, firstVTime int64 // times of the latest / earliest non-null value, whatever the order of the record
 	colIndex = -1
 	lastIndex, firstIndex = -1, -1
 	var countV int64
@@ -470,13 +481,16 @@ func (r *recordIter) setStringColumnMeta(timeColVals *record.ColVal, idx int, re
 		}
 		countV += 1
 		colIndex += 1
-		if colIndex == 0 {
+		if colIndex == 0 || timeCol < firstVTime {
 			firstIndex = index
+			firstVTime = timeCol
 			rec.ColMeta[idx].SetFirst(cols[index-nilCount], timeCol)
 		}
 
-		lastIndex = colIndex
-		lastVTime = timeCol
+		if colIndex == 0 || timeCol >= lastVTime {
+			lastIndex = colIndex
+			lastVTime = timeCol
+		}
 	}
 
 	rec.ColMeta[idx].SetLast(cols[lastIndex], lastVTime)
